@@ -9,9 +9,9 @@ cd "$wt"
 where=$(cat "$d/demo_where.txt" | tr -d ' \n')
 pkg=./$(dirname "$where")
 cp "$d/demo_test.go" "$where"
-echo "--- demo WITHOUT patch (must pass)"; go test -count=1 -run . "$pkg" 2>&1 | tail -3
+echo "--- demo WITHOUT patch (must pass)"; unshare -rn sh -c "ip link set lo up && go test -count=1 -run . $pkg" 2>&1 | tail -3
 rm "$where"
 git apply "$d/patch.diff" || { echo "PATCH DOES NOT APPLY"; exit 1; }
-echo "--- build + suite WITH patch (must pass)"; go build ./... && go test -count=1 ./... 2>&1 | grep -v "no test files" | tail -12
+echo "--- build + suite WITH patch (must pass)"; go build ./... && unshare -rn sh -c "ip link set lo up && go test -count=1 ./..." 2>&1 | grep -v "no test files" | tail -12
 cp "$d/demo_test.go" "$where"
-echo "--- demo WITH patch (must fail)"; go test -count=1 "$pkg" 2>&1 | tail -6
+echo "--- demo WITH patch (must fail)"; unshare -rn sh -c "ip link set lo up && go test -count=1 $pkg" 2>&1 | tail -6
